@@ -129,6 +129,18 @@ let handle kind a =
       (match decode_record (bytes_of_hex a.(0)) with
        | Ok r -> Some (short_or_digest (canon r))
        | Err e -> Some ("Err:" ^ errs e))
+  | "lz" ->
+      (match lazy_view_of (bytes_of_hex a.(0)) with
+       | None -> Some "short"
+       | Some v ->
+           let p f = function None -> "P" | Some x -> f x in
+           let id = function Ok None -> "-" | Ok (Some n) -> dec_of_n n | Err _ -> "Err" in
+           Some (short_or_digest (String.concat " " [
+             p (function None -> "-" | Some n -> hex_of_bytes n) v.v_name;
+             dec_of_n v.v_flags; id v.v_rid; id v.v_pos; opt_s v.v_mapq; id v.v_mrid; id v.v_mpos;
+             dec_of_z v.v_tlen;
+             p (function Ok c -> fmt_cigar c | Err _ -> "Err") v.v_cigar;
+             p hex_of_bytes v.v_seq; p hex_of_bytes v.v_qual; p hex_of_bytes v.v_data_raw ])))
   | "sub" ->
       let sq = bytes_of_hex a.(0) in
       let n = List.length sq in
